@@ -13,8 +13,22 @@ fn ord_name(o: Option<Ordering>) -> &'static str {
     }
 }
 
+/// The comparison as a caller sees it: `partial_cmp` and the four operators must tell the same story
+/// ("ops-disagree" otherwise: e.g. `<` and `>` both true).
 fn cmp_obs(a: u32, b: u32) -> Result<&'static str, String> {
-    guarded(|| ord_name(Serial(a).partial_cmp(&Serial(b))))
+    guarded(|| {
+        let (x, y) = (Serial(a), Serial(b));
+        let got = ord_name(x.partial_cmp(&y));
+        #[allow(clippy::neg_cmp_op_on_partial_ord)]
+        let ops = (x < y, x > y, x <= y, x >= y);
+        let want = match got {
+            "lt" => (true, false, true, false),
+            "gt" => (false, true, false, true),
+            "eq" => (false, false, true, true),
+            _ => (false, false, false, false),
+        };
+        if ops == want { got } else { "ops-disagree" }
+    })
 }
 
 /// Every width-W case is replayed under the exact embedding x -> x * 2^(32-W)
